@@ -1,7 +1,7 @@
 """Helpers shared by the scenario-based engines: option dicts -> runner script tokens."""
 
 KEYS = ("prog", "wd", "env", "extra", "in", "out", "err", "rparent", "rdiscard", "stop", "dl",
-        "input", "nb", "fork", "term", "skill", "ignpipe", "argvnull")
+        "input", "nb", "fork", "term", "skill", "ignpipe", "argvnull", "text", "runex")
 
 
 def start_tokens(h, opts):
